@@ -75,6 +75,7 @@ package service
 //@ ensures [C15] binding_is_never_deleted: bindFound(raw, request.ServiceName, request.Provider)
 //@ ensures [C16,C15] touches_only_the_binding_and_the_two_markers: forall k Key :: {raw[k]}
 //@      (k != KBind(request.ServiceName, request.Provider) && k != KActID(requestID) && k != KActB(request.ServiceName, request.Provider, request.ExpirationHeight, requestID)) ==> raw[k] == old(raw)[k]
+//@ ensures [C12,C16] uncounts_exactly_this_marker: forall id Bytes :: {cntAct(raw, id)} cntAct(raw, id) == cntAct(old(raw), id) - ((id == ridCtx(requestID) && isActive(old(raw), requestID)) ? 1 : 0)
 
 // EndBlocker$2 = expiredRequestBatchHandler(requestContextID, requestContext): called for every entry of the expiry queue at this height.
 //@ func EndBlocker$2
